@@ -1,7 +1,8 @@
-(* Extraction of the hand-written executable model (ExtrOcamlBasic only). *)
+(* Extraction of the hand-written executable model and of the generated Clear / pvDestroy / Swap / MoveCtor (ExtrOcamlBasic only). *)
 From Coq Require Import ZArith List Extraction ExtrOcamlBasic.
 From MomoCommon Require GenPrelude.
 From C14 Require PropagationModel Model Bodies Crew Gen_TreeSet Gen_HashSet Gen_HashMultiMap Gen_DataTable.
+From C14 Require Gen_TreeSet2 Gen_HashSet2 Gen_TreeSet3 Gen_HashSet3.
 Separate Extraction
   PropagationModel.mkTraits PropagationModel.proxy_assign PropagationModel.native_proxy_assign
   PropagationModel.code_target_alloc PropagationModel.code_elementwise PropagationModel.std_target_alloc
@@ -18,4 +19,5 @@ Separate Extraction
   Bodies.s_elementwise_body Bodies.s_copy_table Bodies.idx_shape Bodies.tree_shape
   Crew.iset_new Crew.iset_move_ctor Crew.iset_swap Crew.iset_copy_ctor Crew.iset_move_assign Crew.iset_copy_assign
   Crew.iset_find Crew.iset_insert Crew.coherent
-  Gen_TreeSet.Clear Gen_TreeSet.pvDestroy Gen_HashSet.Clear Gen_HashMultiMap.Clear Gen_DataTable.Clear.
+  Gen_TreeSet.Clear Gen_TreeSet.pvDestroy Gen_HashSet.Clear Gen_HashMultiMap.Clear Gen_DataTable.Clear
+  Gen_TreeSet2.Swap Gen_HashSet2.Swap Gen_TreeSet3.MoveCtor Gen_HashSet3.MoveCtor.
